@@ -102,7 +102,9 @@ def gen(rng, i, tier):
         elif r < 0.60:
             ops.append({"o": "add_list", "k": R(), "a": R(), "l": [someres() for _ in range(rng.randint(0, 2))]})
         elif r < 0.63:
-            ops.append({"o": "mul", "k": R(), "a": R(), "n": rng.choice([0, 1, 2, 2, -1])})
+            a_ = R()
+            ip = rng.random() < 0.4          # `x *= n`: Python falls back to __mul__ and rebinds, i.e. x = x * n
+            ops.append({"o": "mul", "k": a_ if ip else R(), "a": a_, "n": rng.choice([0, 1, 2, 2, -1]), "ip": ip})
         elif r < 0.67:
             ops.append({"o": "getslice", "k": R(), "a": R(), "s": gen_slice(rng)})
         elif r < 0.69:
@@ -240,7 +242,13 @@ def run_impl(case):
             def f(): regs[op["k"]] = regs[op["a"]] + l
             def g(): mirror[op["k"]] = mirror[op["a"]] + l
         elif o == "mul":
-            def f(): regs[op["k"]] = regs[op["a"]] * op["n"]
+            def f():
+                if op.get("ip"):
+                    x = regs[op["a"]]
+                    x *= op["n"]
+                    regs[op["k"]] = x
+                else:
+                    regs[op["k"]] = regs[op["a"]] * op["n"]
             def g(): mirror[op["k"]] = mirror[op["a"]] * op["n"]
         elif o == "getslice":
             def f(): regs[op["k"]] = regs[op["a"]][sl(op["s"])]
